@@ -68,17 +68,28 @@ class HashTable:
 
 
 def build_table(tag, byte_strings, tbl=None, rounds=6):
-    """Fills `tbl` with the real blake3 of every preimage `Wal.queries` asks for on the given inputs."""
+    """Fills `tbl` with the real blake3 of every preimage `Wal.queries` asks for on the given inputs.
+    `tbl.per_input[i]` = the preimages input i needs (for per-input sub-tables)."""
     tbl = tbl or HashTable()
     byte_strings = [bytes(b) for b in byte_strings]
+    per = [set() for _ in byte_strings]
     for rnd in range(rounds):
         pre = PRE + "Definition tbl : list (N * list (bytes * N)) := %s.\n" % tbl.term()
         terms = ["queries (tbl_hash tbl) %s" % hexbytes(b) for b in byte_strings]
         vals = vf.coq_eval(f"{tag}-q{rnd}", pre, terms, shards=min(vf.NCPU, len(terms)), timeout=1700)
+        for i, v in enumerate(vals):
+            per[i].update(bytes(q) for q in v)
         qs = [bytes(q) for v in vals for q in v]
         if tbl.add_missing(qs) == 0:
+            tbl.per_input = per
             return tbl
     raise vf.Broken("hash table for the WAL model did not reach a fixpoint")
+
+
+def sub_table(tbl, preimages):
+    t = HashTable()
+    t.d = {p: tbl.d[p] for p in preimages if p in tbl.d}
+    return t
 
 
 def render_summary(s):
@@ -181,25 +192,29 @@ def model_on_variants(tag, seg_table_pairs, variant_terms):
 
 
 def prefix_model(tag, segs, ks_list):
-    """Model result (harness notation) of recovering seg[:k] for every k in ks, per segment."""
+    """Model result (harness notation) of recovering seg[:k] for every k in ks, per segment.  One evaluation
+    batch per segment (its own small table), batches run concurrently."""
     tbl = build_table(tag, segs)
-    pairs = [(s, tbl) for s in segs]
-    terms, owners = [], []
-    for i, ks in enumerate(ks_list):
-        step = max(8, min(400, -(-sum(len(x) for x in ks_list) // (3 * vf.NCPU))))
-        for c in range(0, len(ks), step):
-            chunk = ks[c:c + step]
-            lst = ";".join(str(k) for k in chunk)
-            terms.append(f"rle (map (fun k => summarize (recover_segment (tbl_hash tbl{i}) 1 (firstn (N.to_nat k) seg{i}))) [{lst}])")
-            owners.append((i, chunk))
-    vals = model_on_variants(tag + "-pref", pairs, terms)
     out = [dict() for _ in segs]
-    for (i, chunk), v in zip(owners, vals):
-        flat = expand_runs(v)
-        if len(flat) != len(chunk):
-            raise vf.Broken("model prefix evaluation returned a wrong number of results")
-        for k, s in zip(chunk, flat):
-            out[i][k] = s
+
+    def one(i):
+        ks = ks_list[i]
+        if not ks:
+            return
+        sub = sub_table(tbl, tbl.per_input[i])
+        step = max(8, min(300, -(-len(ks) // 4)))
+        chunks = [ks[c:c + step] for c in range(0, len(ks), step)]
+        terms = [f"rle (map (fun k => summarize (recover_segment (tbl_hash tbl0) 1 (firstn (N.to_nat k) seg0))) [{';'.join(map(str, ch))}])"
+                 for ch in chunks]
+        vals = model_on_variants(f"{tag}-pref{i}", [(segs[i], sub)], terms)
+        for ch, v in zip(chunks, vals):
+            flat = expand_runs(v)
+            if len(flat) != len(ch):
+                raise vf.Broken("model prefix evaluation returned a wrong number of results")
+            for k, s in zip(ch, flat):
+                out[i][k] = s
+    with concurrent.futures.ThreadPoolExecutor(max_workers=4) as ex:
+        list(ex.map(one, range(len(segs))))
     return out, tbl
 
 
@@ -354,7 +369,19 @@ def run(tier, seed, replay=None):
         segs = [bytes.fromhex(m["seg"]) if m["seg"] != "-" else b"" for _, m in seg_cases]
         endss = [[int(x.split(":")[0]) for x in m["ends"].split(",")] if m.get("ends", "-") != "-" else [] for _, m in seg_cases]
         ks_list = [sample_ks(len(s), e, tier) for s, e in zip(segs, endss)]
-        model, tbl = prefix_model("c10", segs, ks_list) if segs else ([], HashTable())
+        if tier == "quick":
+            # the model is evaluated on the small (store-level) segments at every length and on the two
+            # smallest host segments at the sampled lengths; the implementation side covers every length
+            # of every segment
+            order = sorted(range(len(segs)), key=lambda i: len(segs[i]))
+            keep = set(order[:6])
+            ks_list = [ks if i in keep else [] for i, ks in enumerate(ks_list)]
+        sel = [i for i, ks in enumerate(ks_list) if ks]
+        sub_model, tbl = prefix_model("c10", [segs[i] for i in sel], [ks_list[i] for i in sel]) if sel else ([], HashTable())
+        model = [dict() for _ in segs]
+        for i, mm in zip(sel, sub_model):
+            model[i] = mm
+        r.cov["model_evaluated_on_segments"] = [len(segs[i]) for i in sel]
         for (c, m), seg, ks, mod in zip(seg_cases, segs, ks_list, model):
             impl = parse_rle(m["pref"])
             for k in ks:
